@@ -58,7 +58,7 @@ func LeafNodes2() []N2 {
 	var out []N2
 	for _, l := range Leaves2() {
 		l := l
-		out = append(out, N2{Name: l.Name, Root: l.Ctor, Build: l.Build, Exact: l.Exact, Lip: l.Lip,
+		out = append(out, N2{Name: l.Name, Root: l.Ctor, Build: l.Build, Exact: l.Exact, Lip: l.Lip, Kind: RefValue,
 			Ref: func() (Ev2, error) {
 				s, err := l.Build()
 				if err != nil {
@@ -74,7 +74,7 @@ func LeafNodes3() []N3 {
 	var out []N3
 	for _, l := range Leaves3() {
 		l := l
-		out = append(out, N3{Name: l.Name, Root: l.Ctor, Build: l.Build, Exact: l.Exact, Lip: l.Lip,
+		out = append(out, N3{Name: l.Name, Root: l.Ctor, Build: l.Build, Exact: l.Exact, Lip: l.Lip, Kind: RefValue,
 			Ref: func() (Ev3, error) {
 				s, err := l.Build()
 				if err != nil {
@@ -84,6 +84,26 @@ func LeafNodes3() []N3 {
 			}})
 	}
 	return out
+}
+
+// needsValue lists the operators whose result depends on the operand's distance values, not only on its
+// inside/outside set.
+var needsValue = map[string]bool{"Offset2D": true, "Offset3D": true, "Shell3D": true, "Elongate2D": true, "Elongate3D": true, "ExtrudeRounded3D": true, "Loft3D": true}
+
+// degrade is the reference kind of op(child): an operator cannot fix more than its operand's reference does.
+func degrade(kind, child RefKind, root string) RefKind {
+	switch child {
+	case RefNone:
+		return RefNone
+	case RefSet:
+		if needsValue[root] {
+			return RefNone
+		}
+		if kind == RefValue {
+			return RefSet
+		}
+	}
+	return kind
 }
 
 // ---------------------------------------------------------------------------------------------
@@ -311,7 +331,7 @@ type U33 struct {
 }
 
 func wrap3(c N3, name, root string, kind RefKind, exact, lip bool, build func(s sdf.SDF3) (sdf.SDF3, error), ref func(f Ev3, s sdf.SDF3) Ev3) N3 {
-	return N3{Name: name + "(" + c.Name + ")", Root: root, Depth: c.Depth + 1, Kind: kind, Exact: exact, Lip: lip, OperandExact: c.Exact,
+	return N3{Name: name + "(" + c.Name + ")", Root: root, Depth: c.Depth + 1, Kind: degrade(kind, c.Kind, root), Exact: exact, Lip: lip, OperandExact: c.Exact,
 		Build: func() (sdf.SDF3, error) {
 			s, err := c.Build()
 			if err != nil {
@@ -496,7 +516,7 @@ func RotateCopy3(c N3, n int, inSector, symmetric bool) N3 {
 	name := fmt.Sprintf("RotateCopy3D[%d]", n)
 	kind := RefNone
 	if inSector {
-		kind = RefValue
+		kind = RefSet // folding into one sector reproduces the union of the copies as a set, not its distance values
 	}
 	return wrap3(c, name, "RotateCopy3D", kind, false, c.Lip && symmetric,
 		func(s sdf.SDF3) (sdf.SDF3, error) { return sdf.RotateCopy3D(s, n), nil },
@@ -521,7 +541,7 @@ type U22 struct {
 }
 
 func wrap2(c N2, name, root string, kind RefKind, exact, lip bool, build func(s sdf.SDF2) (sdf.SDF2, error), ref func(f Ev2, s sdf.SDF2) Ev2) N2 {
-	return N2{Name: name + "(" + c.Name + ")", Root: root, Depth: c.Depth + 1, Kind: kind, Exact: exact, Lip: lip, OperandExact: c.Exact,
+	return N2{Name: name + "(" + c.Name + ")", Root: root, Depth: c.Depth + 1, Kind: degrade(kind, c.Kind, root), Exact: exact, Lip: lip, OperandExact: c.Exact,
 		Build: func() (sdf.SDF2, error) {
 			s, err := c.Build()
 			if err != nil {
@@ -693,7 +713,7 @@ func Unary22() []U22 {
 func RotateCopy2(c N2, n int, inSector, symmetric bool) N2 {
 	kind := RefNone
 	if inSector {
-		kind = RefValue
+		kind = RefSet
 	}
 	return wrap2(c, fmt.Sprintf("RotateCopy2D[%d]", n), "RotateCopy2D", kind, false, c.Lip && symmetric,
 		func(s sdf.SDF2) (sdf.SDF2, error) { return sdf.RotateCopy2D(s, n), nil },
